@@ -49,7 +49,13 @@ func Hung(wallStart time.Time, cpuStart time.Duration) (bool, string) {
 	if cpu := ProcessCPU() - cpuStart; cpu > HangCPU {
 		return true, fmt.Sprintf("the call has consumed %v of CPU time without returning (spinning)", cpu.Round(time.Second))
 	}
-	if w := time.Since(wallStart); w > HangWall {
+	limit := HangWall
+	if panicSeen.Load() {
+		// a panic of the code under test was already recovered (itself a violation): locks may be
+		// left held, so a blocked call is expected - do not wait the full limit for it
+		limit = 30 * time.Second
+	}
+	if w := time.Since(wallStart); w > limit {
 		return true, fmt.Sprintf("the call has not returned after %v of wall time (blocked)", w.Round(time.Second))
 	}
 	return false, ""
